@@ -211,7 +211,36 @@ pub fn g_type(d: &mut D, depth: usize) -> String {
     }
 }
 
+/// A separated list whose elements come from a small pool *with repetition* (equal neighbours are
+/// common): predicates, identifiers or expressions; optional trailing separator.
+fn g_repeated_list(d: &mut D) -> (String, &'static str) {
+    const PREDS: &[&str] = &["T: Clone", "U: Copy", "'a: 'b", "for<'x> &'x T: Tr<U>", "Vec<T>: Into<U>", "T: ?Sized + 'a"];
+    let (pool, sep, cat): (Vec<String>, &str, &'static str) = match d.below(4) {
+        0 | 1 => (PREDS.iter().map(|s| s.to_string()).collect(), ", ", "predicates"),
+        2 => (IDS[..6].iter().map(|s| s.to_string()).collect(), ", ", "misc"),
+        _ => (vec!["x".to_string(), "y + 1".to_string(), "f(a, b)".to_string(), "\"s\"".to_string()], "; ", "misc"),
+    };
+    let n = d.range(1, 5);
+    let k = d.range(1, 2.min(pool.len()));
+    let base = d.below(pool.len());
+    let mut xs = vec![];
+    for _ in 0..n {
+        xs.push(pool[(base + d.below(k + 1)) % pool.len()].clone());
+    }
+    let mut s = xs.join(sep);
+    if d.ratio(1, 4) {
+        s.push_str(sep.trim_end());
+    }
+    if cat == "predicates" && d.ratio(1, 3) {
+        return (format!("where {}", s), "where");
+    }
+    (s, cat)
+}
+
 pub fn g_fragment(d: &mut D) -> (String, &'static str) {
+    if d.ratio(1, 10) {
+        return g_repeated_list(d);
+    }
     match d.below(12) {
         0 | 1 => {
             let es = d.bool();
